@@ -1,6 +1,7 @@
 import FitModel.Items
 import FitModel.Gen.Profile
 import FitProofs.ListLemmas
+import FitProofs.Framing
 /-!
   C13 — local message types: the latest definition wins and slots are independent.
 
@@ -83,5 +84,23 @@ example : ∃ st', stepItem Gen.profile (DecSt.init {})
     (st'.defs.getD 5 none).isSome = true := by
   refine ⟨_, rfl, ?_⟩
   decide
+
+/-- **Framing (byte parser = record machine).** On the serialisation of any list of items that fit
+    the definitions live when they are reached, the byte-level record loop of the decoder arrives
+    at exactly the state the record machine `stepItems` computes (and at the loop over whatever
+    follows), or stops with the same error class. The theorems of this file about the record machine
+    are therefore theorems about the decoder on every such stream. -/
+theorem byte_parser_is_record_machine (P : Profile) (limit : Nat) (cont : DecSt → DP) (its : List Item) (fuel : Nat)
+    (st : DecSt) (n : Nat) (s : SpecSt) (tail : Bytes) (hfit : ItemsFit P st its)
+    (hs : s.rest = serialize its ++ tail) (hl : n + (serialize its).length ≤ limit) (hn : st.n = n) :
+    match stepItems P st its with
+    | .ok st' =>
+      runSpecD limit (decodeFileData P limit (fuel + its.length) st cont) n s =
+        runSpecD limit (decodeFileData P limit fuel st' cont) (n + (serialize its).length)
+          { s with rest := tail, taken := s.taken + (serialize its).length } ∧ st'.n = n + (serialize its).length
+    | .stop o =>
+      ∃ e, (runSpecD limit (decodeFileData P limit (fuel + its.length) st cont) n s).1 = .inl e ∧
+        e.err = (exitOf o).err :=
+  run_items P limit cont its fuel st n s tail hfit hs hl hn
 
 end Fit.Props.C13
